@@ -21,6 +21,11 @@ def design(name, module, cfg, **kw):
     return d
 
 
+def ops_trace(tier, ops, quick_n=100, thorough_n=1500):
+    """Direction B: random invocations of these operators recorded from the real code, validated by TLC against Trace_Ops.tla."""
+    return trace("random-invocations-trace", ["ops", "-ops", ops, "-n", str(quick_n if tier == "quick" else thorough_n)], "Trace_Ops.tla", "Trace_Ops.cfg")
+
+
 # --------------------------------------------------------------------------------------------- stage runners
 def run_stage(ctx, st):
     return dict(mc=run_mc, trace=run_trace, design=run_design)[st["kind"]](ctx, st)
@@ -220,6 +225,7 @@ PROPS["C03"] = dict(
         mc("shapes", "MC_C03.tla", "MC_C03_shapes_%s.cfg" % tier, min_cases=2000),
         mc("values", "MC_C03.tla", "MC_C03_values.cfg", min_cases=1000),
         mc("types", "MC_C03.tla", "MC_C03_types.cfg", min_cases=100),
+        ops_trace(tier, "Add,Sub,Mul"),
     ],
 )
 
@@ -229,7 +235,8 @@ PROPS["C07"] = dict(
          "unsorted, duplicate, out-of-range, Shape, dtype sweep over 14 types; each case in three execution modes; non-trivial = expected "
          "tensor with more than one element or an expected error",
     assumptions=["ONNX opset-13 operator documents as transcribed in spec/OpShape.tla"],
-    stages=lambda tier: [mc("shape-ops", "MC_C07.tla", "MC_C07_%s.cfg" % tier, min_cases=20000)],
+    stages=lambda tier: [mc("shape-ops", "MC_C07.tla", "MC_C07_%s.cfg" % tier, min_cases=20000),
+                         ops_trace(tier, "Flatten,Reshape,Squeeze,Unsqueeze,Shape")],
 )
 
 PROPS["C08"] = dict(
@@ -240,7 +247,8 @@ PROPS["C08"] = dict(
          "sweep; non-trivial = expected tensor with more than one element or expected error",
     assumptions=["ONNX opset-13 operator documents as transcribed in spec/OpIndex.tla",
                  "Slice: only non-negative, unclamped, positive-step requests are must-compute; others may be refused but never answered differently"],
-    stages=lambda tier: [mc("index-ops", "MC_C08.tla", "MC_C08_%s.cfg" % tier, min_cases=100000)],
+    stages=lambda tier: [mc("index-ops", "MC_C08.tla", "MC_C08_%s.cfg" % tier, min_cases=100000),
+                         ops_trace(tier, "Transpose,Concat,Slice,Gather,Expand")],
 )
 
 PROPS["C15"] = dict(
@@ -265,7 +273,8 @@ PROPS["C04"] = dict(
          "of C x (M,K,N) in {1,2,3}^3, dtype sweep; LinearRegressor targets x features x batch x intercept forms; Scaler shapes x offset/"
          "scale lengths; non-trivial = expected tensor with more than one element or expected error",
     assumptions=["values are compared exactly on integer-valued data (stronger than a rounding bound); the rounding bound on non-integer data is not exercised"],
-    stages=lambda tier: [mc("linear-ops", "MC_C04.tla", "MC_C04_%s.cfg" % tier, min_cases=8000)],
+    stages=lambda tier: [mc("linear-ops", "MC_C04.tla", "MC_C04_%s.cfg" % tier, min_cases=8000),
+                         ops_trace(tier, "MatMul,Gemm,Scaler,LinearRegressor")],
 )
 
 PROPS["C09"] = dict(
@@ -275,7 +284,8 @@ PROPS["C09"] = dict(
          "x-max with a unique maximum) with per-slice patterns and per-slice magnitudes along every axis, f32/f64, +-MaxFloat slices; "
          "non-trivial = expected tensor with more than one element or an expected error",
     assumptions=["exp(-1000) underflows to exactly 0 in float32 and float64 when computed as exp(x - max)"],
-    stages=lambda tier: [mc("reduce-ops", "MC_C09.tla", "MC_C09_%s.cfg" % tier, min_cases=10000)],
+    stages=lambda tier: [mc("reduce-ops", "MC_C09.tla", "MC_C09_%s.cfg" % tier, min_cases=10000),
+                         ops_trace(tier, "ReduceMax,ReduceMin,ArgMax")],
 )
 
 PROPS["C10"] = dict(
@@ -286,7 +296,8 @@ PROPS["C10"] = dict(
          "correctly rounded value within the stated ulp tolerance; non-trivial = expected tensor with more than one element",
     assumptions=["RefTables.tla is generated by spec/gen_reftables.py with mpmath at 200 bits; float64 results are compared at float32 resolution",
                  "tolerances: 1 ulp for kernels evaluating in float64, 4 ulp for float32 Tanh, 4 + 2*ceil|x| ulp for float32 Sigmoid"],
-    stages=lambda tier: [mc("unary-ops", "MC_C10.tla", "MC_C10_%s.cfg" % tier, min_cases=3000)],
+    stages=lambda tier: [mc("unary-ops", "MC_C10.tla", "MC_C10_%s.cfg" % tier, min_cases=3000),
+                         ops_trace(tier, "Relu,Abs")],
 )
 
 PROPS["C11"] = dict(
@@ -307,7 +318,8 @@ PROPS["C05"] = dict(
          "up to 3, pads up to 3, N,C,M up to 3); images/kernels carry distinct ids so every output element is exact; non-trivial = "
          "expected tensor with more than one element",
     assumptions=["configurations whose output extent would be < 1 or whose attributes are malformed are no-crash only"],
-    stages=lambda tier: [mc("conv", "MC_C05.tla", "MC_C05_%s.cfg" % tier, min_cases=9000)],
+    stages=lambda tier: [mc("conv", "MC_C05.tla", "MC_C05_%s.cfg" % tier, min_cases=9000),
+                         ops_trace(tier, "Conv", 300, 3000)],
 )
 
 def _c06(tier):
